@@ -1459,8 +1459,10 @@ func runForward(c caseIn) *forwardOut {
 			tid := fmt.Sprintf("replay-%d", nfwd)
 			kc := (cur + 1 + o.K%2) % 3
 			must(w.tables[0].RegisterNodeAddress("node-c", listeners[kc].Addr().String()))
+			var lastCli, lastSrv net.Conn
 			forward := func() (int, fwdHit, error) {
 				srv, cli := net.Pipe()
+				lastCli, lastSrv = cli, srv
 				go io.Copy(io.Discard, cli)
 				conn, err := smB.CreateConnection(srv, srv)
 				must(err)
@@ -1474,15 +1476,28 @@ func runForward(c caseIn) *forwardOut {
 			}
 			must(w.tables[0].RegisterWaitingTunnel(bg, &tunnel.WaitingState{TunnelID: tid, MappingID: "m", SourceNodeID: "node-a"}))
 			g1, _, e1 := forward()
+			firstEnded := false
+			if o.N == 1 {
+				// the first life runs to its END on this node: the target client hangs up, the production forwarder
+				// (runCrossNodeDataForwardDedicated) finishes and runs its deferred cleanup (CloseTunnel, MarkTunnelClosed)
+				lastCli.Close()
+				lastSrv.Close()
+				for k := 0; k < 400 && !smB.IsTunnelClosed(tid); k++ {
+					time.Sleep(5 * time.Millisecond)
+				}
+				firstEnded = smB.IsTunnelClosed(tid)
+			}
 			_ = w.tables[0].RemoveWaitingTunnel(bg, tid)
 			must(w.tables[1].RegisterWaitingTunnel(bg, &tunnel.WaitingState{TunnelID: tid, MappingID: "m", SourceNodeID: "node-c"}))
 			g2, h2, e2 := forward()
 			out.Judged++
 			out.Dials = append(out.Dials, g1, g2)
 			out.Want = append(out.Want, cur, kc)
-			out.Events = append(out.Events, fmt.Sprintf("tunnel %s: first life on node-a dialled #%d (%v); replayed from node-c (#%d): dialled #%d (%v)", tid, g1, e1, kc, g2, e2))
+			out.Events = append(out.Events, fmt.Sprintf("tunnel %s: first life on node-a dialled #%d (%v)%s; replayed from node-c (#%d): dialled #%d (%v)", tid, g1, e1, map[bool]string{true: " and ended on node-b", false: ""}[firstEnded], kc, g2, e2))
 			if g1 != cur {
 				fail(i, "forward-lost", fmt.Sprintf("op #%d on %s: first life of %s was dialled at #%d, registered #%d", i, c.Backend, tid, g1, cur))
+			} else if firstEnded && g2 != kc {
+				fail(i, "replayed-id-not-routable-on-forwarding-node", fmt.Sprintf("op #%d on %s: tunnel id %s was forwarded by node-b to node-a and ENDED (the forwarder on node-b finished its cleanup); the id was registered again from node-c (listener #%d) and resolves through the routing table, but the new target connection arriving on node-b was not forwarded there: dialled #%d, %v", i, c.Backend, tid, kc, g2, e2))
 			} else if g2 >= 0 && g2 != kc {
 				fail(i, "forward-reuses-connection-to-stale-node", fmt.Sprintf("op #%d on %s: tunnel id %s waited on node-a (listener #%d) and was forwarded there; it ended and was registered again from node-c (listener #%d); LookupWaitingTunnel answers node-c, but the target connection's TargetReady for %q arrived at listener #%d - the node of the id's FIRST life", i, c.Backend, tid, cur, kc, h2.tunnel, g2))
 			}
